@@ -158,7 +158,10 @@ func runC08(c *core.Ctx) {
 	}
 
 	// one execution: a port table, one probe
+	readSize := 0
 	exec := func(name string, table []c08Port, pr c08Probe, wantList []string, payName string, first, nrest int) {
+		lab.StubReadSize = readSize
+		defer func() { lab.StubReadSize = 0 }()
 		stream := payloads[payName]
 		segs := c08Segments(stream, first, nrest)
 		lab.ResetStubs()
@@ -247,7 +250,15 @@ func runC08(c *core.Ctx) {
 						if len(payloads[pn]) < 4 && (f > 1 || nrest > 1) {
 							continue
 						}
-						exec(fmt.Sprintf("tcp/list%d", li), []c08Port{{"tcp/80", l}}, c08Probe{"tcp", "10.0.0.5", 80}, l, pn, f, nrest)
+						// the chosen service reads with buffers smaller and larger than the peeked segment
+						for _, rs := range []int{0, 1, 7, 512} {
+							if rs == 1 && len(payloads[pn]) > 8 && f != 2 {
+								continue // 1-byte reads: short payloads and one long case
+							}
+							readSize = rs
+							exec(fmt.Sprintf("tcp/list%d/read%d", li, rs), []c08Port{{"tcp/80", l}}, c08Probe{"tcp", "10.0.0.5", 80}, l, pn, f, nrest)
+						}
+						readSize = 0
 					}
 				}
 			}
@@ -258,7 +269,11 @@ func runC08(c *core.Ctx) {
 		li, l := li, l
 		c.Case(fmt.Sprintf("udp/list%d", li), func() {
 			for _, pn := range []string{"A", "B", "C", "Ashort", "B2"} {
-				exec(fmt.Sprintf("udp/list%d", li), []c08Port{{"udp/53", l}}, c08Probe{"udp", "10.0.0.5", 53}, l, pn, 0, 1)
+				for _, rs := range []int{0, 3, 512} {
+					readSize = rs
+					exec(fmt.Sprintf("udp/list%d/read%d", li, rs), []c08Port{{"udp/53", l}}, c08Probe{"udp", "10.0.0.5", 53}, l, pn, 0, 1)
+				}
+				readSize = 0
 			}
 		})
 	}
